@@ -10,6 +10,8 @@ SPELLINGS = {
     "dot": lambda n: "./" + n,
     "dotdot": lambda n: "zz/../" + n,
     "slashes": lambda n: n.replace("/", "//") if "/" in n else ".//" + n,
+    "trailing_dot": lambda n: n + "/.",
+    "trailing_slash": lambda n: n + "/",
     "inner": lambda n: (n.split("/")[0] + "/./" + "/".join(n.split("/")[1:])) if "/" in n else "./././" + n,
 }
 
@@ -32,6 +34,14 @@ def _ops(v, targets, js=(1, 2), tool_names=()):
         for name, sp in sorted(SPELLINGS.items()):
             op = ninja_op(j=js[-1], targets=[sp(t)], label="ninja -j%d %s" % (js[-1], sp(t)))
             op["canonical_args"] = ["-j%d" % js[-1], "-k1", t]
+            ops.append(op)
+    # "src^" = the first statement that consumes src: the caret is not part of the spelling of the path
+    for srcname in sources_of([v])[:2]:
+        if srcname.endswith("dd.in"):
+            continue
+        for name, sp in sorted(SPELLINGS.items()):
+            op = ninja_op(j=js[-1], targets=[sp(srcname) + "^"], label="ninja -j%d %s^" % (js[-1], sp(srcname)))
+            op["canonical_args"] = ["-j%d" % js[-1], "-k1", srcname + "^"]
             ops.append(op)
     for t in tool_names:
         for name, sp in sorted(SPELLINGS.items())[:2]:
